@@ -1,4 +1,5 @@
 import MitmVerif.Model.C28
+import MitmVerif.Model.C28_Wire
 import Driver.Proto
 open MitmVerif Driver MitmVerif.C28
 
@@ -87,7 +88,43 @@ def showState (s : St) : String :=
   ++ " done=" ++ (if s.done then "1" else "0") ++ " crashed=" ++ (if s.crashed then "1" else "0")
   ++ " bufc=" ++ showBuf s.bufC ++ " bufs=" ++ showBuf s.bufS
 
+def showFrame (f : Wire.Frame) : String :=
+  (if f.fin then "1" else "0") ++ "." ++ toString f.rsv ++ "." ++ toString f.opcode ++ "." ++
+  (match f.key with | some k => showBytes k | none => "none") ++ "." ++ showBytes f.payload
+
+def showEv : WsEv → String
+  | .msg t d ff mf => "m." ++ typ t ++ "." ++ showBytes d ++ "." ++ (if ff then "1" else "0") ++ "." ++ (if mf then "1" else "0")
+  | .ping p => "pi." ++ showBytes p
+  | .pong p => "po." ++ showBytes p
+  | .close k c r => "cl." ++ (match k with | .frame => "f" | .eof => "e" | .parseFail => "p") ++ "." ++ toString c ++ "." ++ showReason r
+
+def wireLine (fs : List String) : Option String :=
+  match fs with
+  | ["fenc", fin, rsv, op, key, pl] =>
+    match parseBit fin, rsv.toNat?, op.toNat?, parseReason key, hexOr pl with
+    | some fin, some rsv, some op, some key, some pl =>
+      some (showBytes (Wire.encodeFrame { fin := fin, rsv := rsv, opcode := op, key := key, payload := pl }))
+    | _, _, _, _, _ => none
+  | ["fdec", cl, h] =>
+    match parseBit cl, hexOr h with
+    | some cl, some b =>
+      let r := Wire.decodeStream cl Wire.noExt (b.length + 1) b
+      some ((if r.1.isEmpty then "-" else " ".intercalate (r.1.map showFrame)) ++ " | " ++ toString r.2.1.length ++ " " ++
+            (if r.2.2 then "fail" else "ok"))
+    | _, _ => none
+  | ["fev", cl, h] =>
+    match parseBit cl, hexOr h with
+    | some cl, some b =>
+      match Wire.streamEvents cl Wire.noExt (b.length + 1) none b with
+      | none => some "fail"
+      | some evs => some (if evs.isEmpty then "-" else " ".intercalate (evs.map showEv))
+    | _, _ => none
+  | _ => none
+
 def stepLine (d : DSt) (line : String) : DSt × String :=
+  match wireLine (fields line) with
+  | some r => (d, r)
+  | none =>
   match fields line with
   | ["reset"] => ({}, "ok")
   | ["san", h] =>
